@@ -306,6 +306,44 @@ def run_case(j, e, s):
             check(j, r <= TOL, "Plane.P3", feat, "defining-point-off-plane", dict(detail, residual=r), ("plane", "P3", s))
 
 
+def valuations(j, rng, n):
+    """real data over the quantified ranges: pairs of points 1e-3 .. 1e3 apart with coordinates up to 1e3 (close pairs
+    FAR from the origin included), directions of length 1e-3 .. 1e3: the line exists, contains its defining points and
+    point(lambda), satisfies the Pluecker constraint, and its principal point is the closest to the origin"""
+    from spatialmath import Plucker
+    for i in range(n):
+        mag = 10 ** rng.uniform(-1, 3)
+        P = np.array([rng.uniform(-1, 1) for _ in range(3)]) * mag
+        sep = 10 ** rng.uniform(-3, 3) if i % 2 else 10 ** rng.uniform(-3, -1)
+        dvec = np.array([rng.gauss(0, 1) for _ in range(3)])
+        dvec = dvec / np.linalg.norm(dvec) * sep
+        Q = P + dvec
+        scale = max(float(np.max(np.abs(P))), float(np.max(np.abs(Q))), 1e-300)
+        band = "separation=%s;coordinates=1e%d" % ("below-1e-1" if sep < 0.1 else "above-1e-1", int(math.floor(math.log10(scale))))
+        detail = {"kind": "valuation", "P": P.tolist(), "Q": Q.tolist()}
+        for site, mk in (("Plucker.PQ", lambda: Plucker.PQ(P, Q)), ("Plucker.PointDir", lambda: Plucker.PointDir(P, dvec))):
+            cid = ("valuation", site, band)
+            try:
+                L = mk()
+                u = dvec / sep
+                # distance of the defining points and of two more points of the geometric line from the object's line
+                res = max(incidence_residual(L, x, scale) for x in (P, Q, (P + Q) / 2, 2 * P - Q))
+                cons = abs(float(np.dot(L.v, L.w))) / max(float(np.linalg.norm(L.v)) * float(np.linalg.norm(L.w)), 1e-300)
+                pp = np.asarray(L.pp, dtype=float)
+                foot = P - float(np.dot(P, u)) * u
+                # (1e-9 relative to the data magnitude, divided by the relative separation: a pair 1e-3 apart at 1e3
+                # determines its line to 1e-6 of that at best)
+                tol = 1e-9 * max(1.0, scale / sep)
+                ok = res <= tol and cons <= tol and float(np.max(np.abs(pp - foot))) <= tol * scale
+            except Exception as ex:  # noqa: BLE001
+                j.fail("%s|%s|%s|raised-%s" % (PID, site, band, type(ex).__name__), detail, cid)
+                continue
+            if not ok:
+                j.fail("%s|%s|%s|line-does-not-contain-its-defining-data" % (PID, site, band), dict(detail, residual=res, constraint=cons), cid)
+            else:
+                j.ok(cid)
+
+
 def run(tier):
     j = Judge(PID)
     thorough = tier == "thorough"
@@ -324,7 +362,10 @@ def run(tier):
         raise MachineryError("line case export too small: %d" % n)
     j.sample({"case": r.json[0]})
     j.sample({"case": next(e for e in r.json if e["c"]["k"] == "pair")})
-    cov = {"states": r.distinct, "transitions": r.generated, "traces_validated_against_impl": n, "exhaustive": True,
+    lat = j.evaluations
+    import random
+    valuations(j, random.Random(common.seed() + 19), 1500 if thorough else 200)
+    cov = {"lattice_exact": lat, "valuation": j.evaluations - lat, "states": r.distinct, "transitions": r.generated, "traces_validated_against_impl": n, "exhaustive": True,
            "theorems_checked_by_tlc": 6, "checker_cmd": r.cmd,
            "rule": "case = (method, query kind, constructed relation, scale); integer defining data from fixed point / "
                    "direction / plane / motion sets; predicates judged only on exact or clear-margin configurations"}
